@@ -21,7 +21,7 @@ type gramCase struct {
 	Input         string        `json:"input"`
 	Input2        string        `json:"input2,omitempty"` // C10: second rendering of the same tokens
 	AllowTrailing bool          `json:"allow_trailing,omitempty"`
-	Text          string        `json:"grammar_text,omitempty"` // human-readable rendering (informational)
+	Text          string        `json:"grammar_text,omitempty"`   // human-readable rendering (informational)
 	PRoot         bool          `json:"parseable_root,omitempty"` // C10: the root production is user code that accepts any token stream
 }
 
